@@ -310,3 +310,104 @@ def independence_check(res, known, args):
     res.coverage.update({"programs": compiled, "evaluations": n, "distinct_nontrivial": n,
                          "rule": "per program: every generator alone on a fresh parse, then sequences over ONE parsed model (CLI order, reverse, random orders/subsets); each step's files compared with the alone run and the model dump compared before/after each step",
                          "samples": samples_out})
+
+
+# ----------------------------------------------------------------------------------------
+# C15 (Lua dissector) and C16 (entry points): wrappers around the dedicated harnesses
+# ----------------------------------------------------------------------------------------
+import subprocess
+
+
+def run_script(script, args, timeout):
+    r = subprocess.run(["timeout", str(timeout), sys.executable, os.path.join(core.VERIF, "harness", script)] + args,
+                       stdout=subprocess.PIPE, stderr=subprocess.STDOUT, text=True, cwd=core.VERIF)
+    return r.returncode, r.stdout
+
+
+LUA_FINDINGS = [
+    ("lua-object-fields", r"UndefVar|RangesDiffer|EndDiffers", "object fields / match payloads: dissect_<x>(...) is called without assigning its result to offset, and the main dissector passes the undefined global 'subtree' (lua_wsp_generator.go:373,387): fields after a nested object or match payload are shown at drifted offsets and the dissector does not finish at the end of the message"),
+    ("lua-protofield-int", r"NoCtor", "signed integer fields are declared with ProtoField.int (luaBasicTypeMap LuaType 'int'), which is not a Wireshark constructor: the script does not load"),
+    ("lua-forward-reference", r"UndefCall", "'local function dissect_<x>' is only visible to functions defined after it: a packet that references a packet declared later calls a nil value"),
+    ("lua-u64-prefix", r"'Type'|Type:", "u64 length prefixes are read with uint64(), a userdata that cannot be a loop bound or a range length"),
+    ("lua-subdissector-at-end", r"Beyond", "every sub-dissector starts with buf(offset, 1): a packet dissected at the very end of the buffer (empty payload) reads beyond it"),
+    ("lua-reserved-key-name", r"Syntax", "a match key field is copied into a local named snake(field name): 'End' becomes the reserved word 'end'"),
+]
+
+
+@handler("C15")
+def lua_check(res, known, args):
+    ncfg = "2" if res.tier == "quick" else "27"
+    rc, out = run_script("lua.py", [ncfg], 3000)
+    m = re.search(r"correspondence: cases (\d+) panics modelled (\d+) mismatches (\d+)", out)
+    verd = re.findall(r"verdicts \(([^)]*)\): (\{.*\})", out)
+    frag_bad = re.search(r"frag violated: (\[.*\])", out)
+    t1 = re.search(r"T1 luaBasicTypeMap == lua_type_table: (\w+)", out)
+    selft = re.search(r"extractor self-test: mutations (\d+) unnoticed (\d+)", out)
+    if m is None or rc == 2:
+        res.violation({"kind": "harness", "what": "the Lua harness did not complete", "output": out[-3000:]}, found=False)
+        return
+    cases, mism = int(m.group(1)), int(m.group(3))
+    if t1 and t1.group(1) != "True":
+        res.violation({"kind": "proof-obligation", "what": "luaBasicTypeMap (scalar size table) differs from the table the Coq model was proved over", "output": out[:1500]}, found=False)
+    bad = eval(frag_bad.group(1)) if frag_bad else []
+    for pid, why in bad[:3]:
+        res.violation({"kind": "lua", "what": "program %s is inside the fragment on which the dissector is correct (lua_frag), but the emitted dissector attributes wrong ranges: %s" % (pid, why),
+                       "program": pid, "rerun": "cd /verif && python3 harness/lua.py %s --show 20" % ncfg}, found=True)
+    if mism:
+        blocks = re.findall(r"  ---- (\S+) part (\S+)\n((?:     .*\n)*)", out)
+        res.violation({"kind": "correspondence", "what": "the emitted Lua differs from the generator model (coq/Gen/Lua.v) for %d programs" % mism,
+                       "first": [{"program": b[0], "part": b[1], "diff": b[2][:800]} for b in blocks[:3]],
+                       "theorem_or_correspondence": "T2d gen_lua vs extract_lua"}, found=False)
+    if selft and int(selft.group(2)) > 0:
+        res.violation({"kind": "harness", "what": "extractor self-test: %s text mutations went unnoticed" % selft.group(2)}, found=False)
+    for fid, rx, what in LUA_FINDINGS:
+        if any(re.search(rx, v[1]) for v in verd):
+            res.known.append("finding=%s %s" % (fid, what))
+    res.coverage.update({"programs": cases, "evaluations": cases, "distinct_nontrivial": cases, "mismatches": mism,
+                         "verdicts": {k: v for k, v in verd}, "fragment_violations": bad,
+                         "extractor_selftest": selft.group(0) if selft else None,
+                         "rule": "cell programs (%s configurations) + one program per dissector shape; emitted Lua extracted to the Lua IR and compared with gen_lua (tie); sem_lua of the observed IR over the canonical encoding of boundary messages compared with ranges derived from the wire specification; programs inside lua_frag must agree on every message" % ncfg,
+                         "samples": [{"tail_of_report": out[-1200:]}]})
+    res.assumptions += ["the Wireshark Lua API as written down in coq/Lua/LuaIR.v (no Lua interpreter or tshark in the sandbox)"]
+
+
+CLI_WITNESSES = [
+    ("cli-d-and-f", ["format", "-d", "packet A {u8 x,}", "-f", "{file}"], "format -d X -f file overwrites (or creates) the file with the formatted X and prints nothing"),
+    ("cli-help-rewritten", ["help"], "'fin-protoc help' (and 'completion') is rewritten to 'compile help': cobra adds those commands only inside Execute, after isSubcommand has run"),
+    ("cli-empty-d", ["format", "-d", ""], "format -d \"\" prints 'Please provide a DSL string or a file path' and exits 1 although the formatter accepts the empty text"),
+]
+
+
+@handler("C16")
+def cli_check(res, known, args):
+    rc, out = run_script("cli.py", [], 3000)
+    m = re.search(r"^cases: (\d+)", out, re.M)
+    mm = re.search(r"^mismatches: (\d+)", out, re.M)
+    if m is None or mm is None or rc == 2:
+        res.violation({"kind": "harness", "what": "the CLI harness did not complete", "output": out[-3000:]}, found=False)
+        return
+    cases, mism = int(m.group(1)), int(mm.group(1))
+    for line in re.findall(r"^  MISMATCH (.*)$", out, re.M)[:4]:
+        res.violation({"kind": "entry-point", "what": "an entry point delivers something other than the wrapper model (proved to deliver exactly the library result) predicts: " + line[:1500]}, found=True)
+    # re-validate the recorded findings on the real binary
+    scratch = os.path.join(core.BUILD, "cli_findings")
+    import shutil
+    shutil.rmtree(scratch, ignore_errors=True)
+    os.makedirs(scratch)
+    binp = os.path.join(core.BUILD, "fin-protoc")
+    f = os.path.join(scratch, "f.dsl")
+    open(f, "w").write("packet Keep {\n    u8 keep,\n}")
+    r = subprocess.run([binp, "format", "-d", "packet A {u8 x,}", "-f", f], stdout=subprocess.PIPE, stderr=subprocess.STDOUT, text=True, cwd=scratch)
+    if "Keep" not in open(f).read():
+        res.known.append("finding=cli-d-and-f " + CLI_WITNESSES[0][2])
+    r = subprocess.run([binp, "help"], stdout=subprocess.PIPE, stderr=subprocess.STDOUT, text=True, cwd=scratch)
+    if "could not read file" in r.stdout:
+        res.known.append("finding=cli-help-rewritten " + CLI_WITNESSES[1][2])
+    r = subprocess.run([binp, "format", "-d", ""], stdout=subprocess.PIPE, stderr=subprocess.STDOUT, text=True, cwd=scratch)
+    if r.returncode != 0:
+        res.known.append("finding=cli-empty-d " + CLI_WITNESSES[2][2])
+    dist = dict(re.findall(r"^  (\S.*?)\s{2,}(\d+)$", out, re.M))
+    res.coverage.update({"programs": cases, "evaluations": cases, "distinct_nontrivial": cases, "mismatches": mism, "distribution": dist,
+                         "rule": "real binary and real c-shared library (ctypes) run in fresh scratch directories on DSL texts x entry points x flag spellings x all 64 output-flag subsets; stdout, exit code and resulting directory tree compared with the Coq wrapper model instantiated with the real library results (hook)",
+                         "samples": [{"tail_of_report": out[-1200:]}]})
+    res.assumptions += ["OS-level effects (permissions, partial writes, symlinks) are outside the model", "stderr is not compared"]
